@@ -677,6 +677,7 @@ func main() {
 		e.runC15()
 		e.runC15History()
 		e.runC15Extra()
+		e.runC15Retained() // wave 4: retained results of every producer (c15w4.go)
 	default:
 		fmt.Println("unknown property", a.Prop)
 		return
